@@ -104,7 +104,12 @@ static ares_status_t ares_dns_write_header(const ares_dns_record_t *dnsrec,
     return status; /* LCOV_EXCL_LINE: OutOfMemory */
   }
 
-  /* QDCOUNT */
+  /* QDCOUNT: the parser takes exactly one question, don't write a message
+   * that can't be read back */
+  if (ares_dns_record_query_cnt(dnsrec) != 1) {
+    return ARES_EFORMERR;
+  }
+
   status = ares_buf_append_be16(
     buf, (unsigned short)ares_dns_record_query_cnt(dnsrec));
   if (status != ARES_SUCCESS) {
